@@ -285,7 +285,8 @@ def ugrid_mesh(c, *, maxn=4, fill='int_fill', start_index=0, transposed=False, *
     attrs = dict(ds._vars['face_node'].attrs)
     if fill == 'int_fill':
         attrs['_FillValue'] = FILL_INT
-    ds._vars['face_node'] = Variable(dims, arr, attrs, {})
+    # fill == 'nan' is what xarray hands over after decoding an integer table: float data, the file's type and fill value in .encoding
+    ds._vars['face_node'] = Variable(dims, arr, attrs, {'dtype': INT32, '_FillValue': FILL_INT} if fill == 'nan' else {})
     ds.info.update({'maxn': maxn, 'mesh_node': nd, 'mesh_count': cnt, 'fill': fill})
     c.assumptions_used.add('VALID-UGRID-MESH: faces have 3..max_nodes nodes, listed first, indexes in range (after start_index); '
                            'missing entries use the declared fill representation')
